@@ -7,8 +7,8 @@ from vlib import ns
 EXPLANATION = (
     'C07: the real TransferManager over the model executor (engine NS): nothing runs until the symbolic schedule '
     'starts it; the cancellation is injected at a SYMBOLIC point - before the k-th task start of the top-level loop '
-    '(all five entry points: future.cancel(), shutdown(cancel=True, cancel_msg=m), with-block exit through an ordinary '
-    'exception / KeyboardInterrupt, Ctrl-C inside result()) or inside the n-th environment call (future.cancel() from '
+    '(all six entry points: future.cancel(), shutdown(cancel=True, cancel_msg=m), with-block exit through an ordinary '
+    'exception / KeyboardInterrupt, Ctrl-C inside result(), Ctrl-C inside shutdown()) or inside the n-th environment call (future.cancel() from '
     'another thread while a request / read / write is in flight); which queued tasks start nested inside environment '
     'calls is symbolic too.  Oracle: no entry point raises, every unfinished transfer ends with CancelledError(m) '
     '(FatalError for the ordinary exception), a transfer that had not started issues no S3 request at all, a finished '
@@ -41,12 +41,17 @@ def cancel_run(transfer, entry, where, size, thr, chunk, io, at, c0, c1, c2, c3)
         return FT.pick(FT.judge(c, transfer, size, thr), 'c0')
     if c.cancel_error is not None:
         return 'c07: the cancellation entry point raised %s' % type(c.cancel_error).__name__
+    if not c.barrier_ok:
+        return 'c07: shutdown / with-block exit returned while transfers or tasks of the manager were still running'
     if c.done_before_cancel:
         if c.outcome_before is not None and (st, val if st == 'exc' else None) != (
                 c.outcome_before[0], c.outcome_before[1] if c.outcome_before[0] == 'exc' else None):
             return 'c07: a finished transfer changed its outcome when cancelled'
         return None
     etype, emsg = N.expected_error(entry if where == 'top' else 'future')
+    status = c.future._coordinator.status
+    if (st == 'ok') != (status == 'success'):
+        return 'c07: outcome not truthfully reported (result() and status disagree)'
     if st == 'ok':
         if not c.started_before_cancel:
             return 'c07: a transfer cancelled before it started reports success'
